@@ -162,7 +162,8 @@ Record task := { t_op : Z; t_kind : Z (* 5 replicate, 6 fixVersion *); t_gen : Z
                  t_cliver : Z; t_badts : Z; t_rpc : Z (* pool id of the FixVersion RPC it serves, 0 = none *) }.
 
 (* client knowledge: a location entry delivered to a client *)
-Record kent := { ke_cli : Z; ke_tk : Z; ke_ver : Z; ke_hosts : list Z; ke_durable : bool; ke_acks : Z }.
+Record kent := { ke_cli : Z; ke_tk : Z; ke_ver : Z; ke_hosts : list Z; ke_addr : list Z (* hosts whose address the reply carried *);
+                 ke_durable : bool (* from GetTracts (true) or from ExtendBlob (false) *); ke_acks : Z (* writes acknowledged when the lookup ran *) }.
 
 (* client operation in progress *)
 Record cop := { o_id : Z; o_kind : Z; o_cli : Z; o_blob : Z; o_off : Z; o_len : Z; o_wid : Z;
@@ -420,8 +421,17 @@ Definition start_task (st : state) (t : task) : state :=
   if (t_kind t =? 6) && negb (zmem (t_badts t) (known_of st (t_gen t))) then finish_task st1 t cl_ErrHostNotExist
   else wake 8 st1.
 
-(* a reply (or an RPC error) reaches the task that waits for it; 'hint' = servers placement picked *)
-Definition task_reply (st : state) (op : Z) (err : Z) (hint : list Z) : state :=
+(* oracle inputs travel as one list: placement choice, then -1, then the durable host order after the event *)
+Fixpoint before_sep (l : list Z) : list Z :=
+  match l with [] => [] | x :: r => if x =? -1 then [] else x :: before_sep r end.
+Fixpoint after_sep (l : list Z) : list Z :=
+  match l with [] => [] | x :: r => if x =? -1 then r else after_sep r end.
+Definition is_perm (a b : list Z) : bool :=
+  (Z.of_nat (length a) =? Z.of_nat (length b)) && subset a b && subset b a.
+
+(* a reply (or an RPC error) reaches the task that waits for it; 'hint0' = oracle inputs *)
+Definition task_reply (st : state) (op : Z) (err : Z) (hint0 : list Z) : state :=
+  let hint := before_sep hint0 in
   match find_task (s_tasks st) op with
   | None => st
   | Some t =>
@@ -448,7 +458,9 @@ Definition task_reply (st : state) (op : Z) (err : Z) (hint : list Z) : state :=
           fold_left (fun s h => issue_cur s (mk_pull (t_gen t) h (t_blob t) (t_tract t) (t_dv t + 1) (t_ok t)) (t_op t)) hint st1
       else
         (* commit *)
-        let hosts := if t_kind t =? 5 then t_ok t ++ t_new t else t_ok t in
+        let hosts0 := if t_kind t =? 5 then t_ok t ++ t_new t else t_ok t in
+        (* append(okIds, newIds...): the order of newIds is placement's; take it from the durable record if it is a permutation *)
+        let hosts := if is_perm (after_sep hint0) hosts0 then after_sep hint0 else hosts0 in
         let '(st1, e) := change_tract st (t_term t) (t_blob t) (t_tract t) (t_dv t + 1) hosts in
         wake 8 (finish_task st1 t e)
   end.
@@ -462,76 +474,76 @@ Definition del_op (ops : list cop) (id : Z) : list cop := filter (fun o => negb 
 (* the operation a client RPC belongs to: the client's only operation in progress *)
 Definition op_of_client (ops : list cop) (cli : Z) : option cop := find (fun o => o_cli o =? cli) ops.
 
-(* decode GetTracts / ExtendBlob reply payloads into entries: ntr (idx ver nh (tsid known)* )* *)
-Fixpoint take_hosts (n : nat) (l : list Z) : list (Z * Z) * list Z :=
+(* tract lists on the wire: ntr (idx ver nh (tsid known)* )*   [flags = true]
+                            ntr (idx ver nh tsid* )*           [flags = false] *)
+Fixpoint take_hosts (flags : bool) (n : nat) (l : list Z) : list (Z * Z) * list Z :=
   match n with
   | O => ([], l)
-  | S n' => match l with
-            | h :: kn :: r => let '(hs, r') := take_hosts n' r in ((h, kn) :: hs, r')
-            | _ => ([], [])
-            end
+  | S n' => if flags then
+              match l with
+              | h :: kn :: r => let '(hs, r') := take_hosts flags n' r in ((h, kn) :: hs, r')
+              | _ => ([], [])
+              end
+            else
+              match l with
+              | h :: r => let '(hs, r') := take_hosts flags n' r in ((h, 1) :: hs, r')
+              | _ => ([], [])
+              end
   end.
-Fixpoint take_tracts (n : nat) (l : list Z) : list (Z * Z * list (Z * Z)) :=
+Fixpoint take_tracts (flags : bool) (n : nat) (l : list Z) : list (Z * Z * list (Z * Z)) :=
   match n with
   | O => []
   | S n' => match l with
             | idx :: ver :: nh :: r =>
-                let '(hs, r') := take_hosts (Z.to_nat nh) r in (idx, ver, hs) :: take_tracts n' r'
+                let '(hs, r') := take_hosts flags (Z.to_nat nh) r in (idx, ver, hs) :: take_tracts flags n' r'
             | _ => []
             end
   end.
-Definition decode_tracts (l : list Z) : list (Z * Z * list (Z * Z)) :=
-  match l with n :: r => take_tracts (Z.to_nat n) r | [] => [] end.
+Definition decode_tracts (flags : bool) (l : list Z) : list (Z * Z * list (Z * Z)) :=
+  match l with n :: r => take_tracts flags (Z.to_nat n) r | [] => [] end.
 
-Definition nacked (st : state) : Z := Z.of_nat (length (s_acked st)).
+Fixpoint pairs (l : list Z) : list (Z * Z) :=
+  match l with a :: b :: r => (a, b) :: pairs r | _ => [] end.
+
+Definition set_op_fields (o : cop) succ acked reads : cop :=
+  {| o_id := o_id o; o_kind := o_kind o; o_cli := o_cli o; o_blob := o_blob o; o_off := o_off o; o_len := o_len o; o_wid := o_wid o;
+     o_succ := succ; o_acked := acked; o_reads := reads |}.
 
 (* delivery of a reply to a CLIENT: what the client learns *)
 Definition client_learns (st : state) (r : rpc) (res : list Z) : state :=
   match res with
   | [] => st
   | cls :: payload =>
-      if (k_kind r =? K_GetTracts) || (k_kind r =? K_ExtendBlob) then
+      if k_kind r =? K_GetTracts then
+        match payload with
+        | nack :: trs =>
+            if negb (cls =? cl_NoError) then st
+            else set_know st (map (fun '(idx, ver, hs) =>
+                                     {| ke_cli := k_cli r; ke_tk := tkey (k_blob r) idx; ke_ver := ver; ke_hosts := map fst hs;
+                                        ke_addr := map fst (filter (fun '(_, kn) => negb (kn =? 0)) hs);
+                                        ke_durable := true; ke_acks := nack |}) (decode_tracts true trs) ++ s_know st)
+        | [] => st
+        end
+      else if k_kind r =? K_ExtendBlob then
         if negb (cls =? cl_NoError) then st
-        else
-          let ents := map (fun '(idx, ver, hs) =>
-                             {| ke_cli := k_cli r; ke_tk := tkey (k_blob r) idx; ke_ver := ver;
-                                ke_hosts := map fst (filter (fun '(_, kn) => negb (kn =? 0)) hs);
-                                ke_durable := k_kind r =? K_GetTracts; ke_acks := nacked st |})
-                          (decode_tracts payload) in
-          (* an entry with an unknown host address is useless for writing; keep only fully addressed ones *)
-          let full := filter (fun '(idx, ver, hs) => forallb (fun '(_, kn) => negb (kn =? 0)) hs) (decode_tracts payload) in
-          let ents' := map (fun '(idx, ver, hs) =>
-                             {| ke_cli := k_cli r; ke_tk := tkey (k_blob r) idx; ke_ver := ver;
-                                ke_hosts := map fst hs;
-                                ke_durable := k_kind r =? K_GetTracts; ke_acks := nacked st |}) full in
-          let _ := ents in
-          set_know st (ents' ++ s_know st)
+        else set_know st (map (fun '(idx, ver, hs) =>
+                                 {| ke_cli := k_cli r; ke_tk := tkey (k_blob r) idx; ke_ver := ver; ke_hosts := map fst hs;
+                                    ke_addr := map fst hs; ke_durable := false; ke_acks := 0 |}) (decode_tracts true payload) ++ s_know st)
       else match op_of_client (s_ops st) (k_cli r) with
            | None => st
            | Some o =>
                if ((k_kind r =? K_Write) || (k_kind r =? K_Create)) && (cls =? cl_NoError) && (k_wid r =? o_wid o) then
                  let v := if k_kind r =? K_Create then 1 else k_ver r in
                  set_ops st (upd_op (s_ops st)
-                   {| o_id := o_id o; o_kind := o_kind o; o_cli := o_cli o; o_blob := o_blob o; o_off := o_off o; o_len := o_len o; o_wid := o_wid o;
-                      o_succ := (tkey (k_blob r) (k_tract r), k_ts r, v, k_off r, k_len r) :: o_succ o;
-                      o_acked := o_acked o; o_reads := o_reads o |})
+                   (set_op_fields o ((tkey (k_blob r) (k_tract r), k_ts r, v, k_off r, k_len r) :: o_succ o) (o_acked o) (o_reads o)))
                else if (k_kind r =? K_AckExtend) && (cls =? cl_NoError) then
                  set_ops st (upd_op (s_ops st)
-                   {| o_id := o_id o; o_kind := o_kind o; o_cli := o_cli o; o_blob := o_blob o; o_off := o_off o; o_len := o_len o; o_wid := o_wid o;
-                      o_succ := o_succ o;
-                      o_acked := map (fun '(idx, _, _) => tkey (k_blob r) idx) (decode_tracts (Z.of_nat (length (k_aux r)) :: [])) ++ o_acked o;
-                      o_reads := o_reads o |})
+                   (set_op_fields o (o_succ o)
+                      (map (fun '(idx, _, _) => tkey (k_blob r) idx) (decode_tracts false (k_aux r)) ++ o_acked o) (o_reads o)))
                else if (k_kind r =? K_Read) && ((cls =? cl_NoError) || (cls =? cl_ErrEOF)) then
-                 match payload with
-                 | n :: runs =>
-                     set_ops st (upd_op (s_ops st)
-                       {| o_id := o_id o; o_kind := o_kind o; o_cli := o_cli o; o_blob := o_blob o; o_off := o_off o; o_len := o_len o; o_wid := o_wid o;
-                          o_succ := o_succ o; o_acked := o_acked o;
-                          o_reads := (tkey (k_blob r) (k_tract r), k_off r, k_len r,
-                                      (fix pairs (l : list Z) : list (Z * Z) :=
-                                         match l with a :: b :: r' => (a, b) :: pairs r' | _ => [] end) (tl runs)) :: o_reads o |})
-                 | [] => st
-                 end
+                 set_ops st (upd_op (s_ops st)
+                   (set_op_fields o (o_succ o) (o_acked o)
+                      ((tkey (k_blob r) (k_tract r), k_off r, k_len r, pairs (tl (tl payload))) :: o_reads o)))
                else st
            end
   end.
@@ -549,7 +561,7 @@ Definition resume (st : state) (e : pent) (delivered : bool) (hint : list Z) : s
                else st1 in
     if delivered then client_learns st2 r (p_res e) else st2.
 
-(* deliver every executed auto-send reply (a task that finishes may complete its FixVersion RPC) *)
+(* deliver every executed auto-send reply (a task that finishes may complete the FixVersion RPC it serves) *)
 Fixpoint flush (fuel : nat) (st : state) (hint : list Z) : state :=
   match fuel with
   | O => st
@@ -568,9 +580,27 @@ Definition enc_tracts (st : state) (gen blob start stop : Z) : list Z :=
   let idxs := map (fun i => start + Z.of_nat i) (seq 0 (Z.to_nat (stop - start))) in
   Z.of_nat (length idxs) ::
   flat_map (fun idx => match zget (s_dtr st) (tkey blob idx) with
-                       | Some (dv, hs) => [idx; dv; Z.of_nat (length hs)] ++ flat_map (fun h => [h; if zmem h known then 1 else 0]) hs
+                       | Some (dv, hs) => [idx; dv; Z.of_nat (length hs)] ++
+                                          flat_map (fun h => [h; if zmem h known then 1 else 0]) (fold_right insert_sorted [] hs)
                        | None => [idx; 0; 0]
                        end) idxs.
+
+(* Curator.ackExtend -> StateHandler.ExtendBlob -> ExtendBlobCommand.apply *)
+Definition ack_extend (st : state) (blob : Z) (trs : list (Z * Z * list (Z * Z))) : state * Z :=
+  match trs with
+  | [] => (st, cl_NoError)
+  | (first, _, _) :: _ =>
+      if 20 <? Z.of_nat (length trs) then (st, cl_ErrTooBig)
+      else match zget (s_blobs st) blob with
+           | None => (st, cl_ErrNoSuchBlob)
+           | Some (repl, nt) =>
+               if negb (first =? nt) then (st, cl_ErrExtendConflict)
+               else if negb (forallb (fun '(_, _, hs) => Z.of_nat (length hs) =? repl) trs) then (st, cl_ErrInvalidArgument)
+               else
+                 let dtr' := fst (fold_left (fun '(m, i) '(_, _, hs) => (zset m (tkey blob i) (1, map fst hs), i + 1)) trs (s_dtr st, nt)) in
+                 (set_blobs (set_dtr st dtr') (zset (s_blobs st) blob (repl, nt + Z.of_nat (length trs))), cl_NoError)
+           end
+  end.
 
 (* returns the new state and the reply (class :: payload); 'oracle' carries the ExtendBlob placement *)
 Definition exec_rpc (st : state) (e : pent) (oracle : list Z) : state * list Z :=
@@ -599,12 +629,12 @@ Definition exec_rpc (st : state) (e : pent) (oracle : list Z) : state * list Z :
     | None => (st, [cl_ErrNoSuchBlob])
     | Some (_, nt) =>
         if (start <? 0) || (stop <? start) then (st, [cl_ErrInvalidArgument])
-        else if start =? stop then (st, [cl_NoError; 0])
+        else if start =? stop then (st, [cl_NoError; Z.of_nat (length (s_acked st)); 0])
         else if nt <=? start then (st, [cl_ErrNoSuchTract])
-        else (st, cl_NoError :: enc_tracts st (s_gen st) (k_blob r) start (Z.min stop nt))
+        else (st, cl_NoError :: Z.of_nat (length (s_acked st)) :: enc_tracts st (s_gen st) (k_blob r) start (Z.min stop nt))
     end
   else if k =? K_ExtendBlob then
-    (* Curator.extend: not durable; placement is an oracle input, validated *)
+    (* Curator.extend: nothing durable; placement is an oracle input, validated *)
     match zget (s_blobs st) (k_blob r) with
     | None => (st, [cl_ErrNoSuchBlob])
     | Some (repl, nt) =>
@@ -615,7 +645,7 @@ Definition exec_rpc (st : state) (e : pent) (oracle : list Z) : state * list Z :
           let known := known_of st (s_gen st) in
           if Z.of_nat (length known) <? repl then (st, [cl_ErrAllocHost])
           else
-            let trs := decode_tracts oracle in
+            let trs := decode_tracts true oracle in
             let okshape := (Z.of_nat (length trs) =? want) &&
                            forallb (fun '(idx, ver, hs) => (ver =? 1) && (Z.of_nat (length hs) =? repl) &&
                                                            subset (map fst hs) known && distinct (map fst hs)) trs &&
@@ -623,9 +653,242 @@ Definition exec_rpc (st : state) (e : pent) (oracle : list Z) : state * list Z :
             if okshape then (st, cl_NoError :: oracle) else (st, [-4])
     end
   else if k =? K_AckExtend then
-    (* Curator.ackExtend -> ExtendBlobCommand.apply *)
-    let trs := decode_tracts (Z.of_nat (length (decode_tracts_aux_count (k_aux r))) :: k_aux r) in
-    (st, [cl_NoError])
+    let '(st', c) := ack_extend st (k_blob r) (decode_tracts false (k_aux r)) in (st', [c])
   else if k =? K_ReportBadTS then
     (st, [if zmem (aux_nth r 0) (known_of st (s_gen st)) then cl_NoError else cl_ErrHostNotExist])
   else (st, [-1]).
+
+Definition set_pent (e : pent) (stt : Z) (res : list Z) (lose auto : bool) : pent :=
+  {| p_id := p_id e; p_rpc := p_rpc e; p_st := stt; p_res := res; p_lose := lose; p_auto := auto; p_owner := p_owner e |}.
+
+(* ------------------------------------------------------------------ wire decoding *)
+Definition take (n : Z) (l : list Z) : list Z * list Z := (firstn (Z.to_nat n) l, skipn (Z.to_nat n) l).
+
+Definition parse_rpc (l : list Z) : option (rpc * list Z) :=
+  match l with
+  | kind :: cli :: gen :: ts :: blob :: tract :: ver :: off :: len :: wid :: naux :: r =>
+      let '(aux, rest) := take naux r in
+      Some ({| k_kind := kind; k_cli := cli; k_gen := gen; k_ts := ts; k_blob := blob; k_tract := tract; k_ver := ver;
+               k_off := off; k_len := len; k_wid := wid; k_aux := aux |}, rest)
+  | _ => None
+  end.
+
+Definition out_section (st : state) : list Z :=
+  let l := sort_rpcs (s_out st) in Z.of_nat (length l) :: flat_map rpc_line l.
+
+Definition is_ts_kind (k : Z) : bool := (K_Create <=? k) && (k <=? K_PullTract).
+
+(* ------------------------------------------------------------------ client rules (verdict codes) *)
+Definition V_OK := 1.  Definition V_ISSUE := 2.  Definition V_ACK := 3.  Definition V_READ := 4.  Definition V_NOOP := 5.
+
+Definition issue_allowed (st : state) (r : rpc) : bool :=
+  if is_ts_kind (k_kind r) then
+    let v := if k_kind r =? K_Create then 1 else k_ver r in
+    existsb (fun ke => (ke_cli ke =? k_cli r) && (ke_tk ke =? tkey (k_blob r) (k_tract r)) && (ke_ver ke =? v) &&
+                       zmem (k_ts r) (ke_addr ke)) (s_know st)
+  else true.
+
+Definition TL := cl_TractLength.
+
+Definition tracts_of (off len : Z) : list Z :=
+  if len <=? 0 then [] else map (fun i => off / TL + Z.of_nat i) (seq 0 (Z.to_nat ((off + len - 1) / TL - off / TL + 1))).
+
+Definition seg_of (off len j : Z) : Z * Z :=   (* (offset in tract, length) of the part of [off,off+len) in tract j *)
+  let lo := Z.max off (j * TL) in let hi := Z.min (off + len) ((j + 1) * TL) in (lo - j * TL, hi - lo).
+
+Definition succ_mem (x : Z * Z * Z * Z * Z) (l : list (Z * Z * Z * Z * Z)) : bool :=
+  existsb (fun y => let '(a, b, c, d, e) := x in let '(a', b', c', d', e') := y in
+                    (a =? a') && (b =? b') && (c =? c') && (d =? d') && (e =? e')) l.
+
+(* V_ACK: every tract of the write has ONE delivered entry all of whose hosts accepted the write at the
+   entry's version, and the tract is known durable (entry from GetTracts, or AckExtend delivered OK) *)
+Definition ack_allowed (st : state) (o : cop) : bool :=
+  forallb (fun j =>
+             let tk := tkey (o_blob o) j in
+             let '(toff, tlen) := seg_of (o_off o) (o_len o) j in
+             existsb (fun ke => (ke_cli ke =? o_cli o) && (ke_tk ke =? tk) &&
+                                negb (Z.of_nat (length (ke_hosts ke)) =? 0) &&
+                                forallb (fun h => succ_mem (tk, h, ke_ver ke, toff, tlen) (o_succ o)) (ke_hosts ke) &&
+                                (ke_durable ke || zmem tk (o_acked o))) (s_know st))
+          (tracts_of (o_off o) (o_len o)).
+
+Fixpoint clip (l : list (Z * Z)) (L : Z) : list (Z * Z) * Z :=
+  match l with
+  | [] => ([], L)
+  | (n, v) :: r => if L <=? 0 then ([], 0)
+                   else if n <=? L then let '(c, rem) := clip r (L - n) in ((n, v) :: c, rem)
+                   else ([(L, v)], 0)
+  end.
+
+(* V_READ: the n returned bytes are, tract by tract, the bytes of the newest delivered read reply of
+   this operation for that tract (same offset), zero padded *)
+Definition read_expected (o : cop) (n : Z) : option (list (Z * Z)) :=
+  fold_right (fun j acc =>
+                match acc with
+                | None => None
+                | Some rest =>
+                    let '(toff, tlen) := seg_of (o_off o) n j in
+                    match find (fun '(tk, roff, _, _) => (tk =? tkey (o_blob o) j) && (roff =? toff)) (o_reads o) with
+                    | None => None
+                    | Some (_, _, _, runs) => let '(c, rem) := clip runs tlen in Some (c ++ [(rem, 0)] ++ rest)
+                    end
+                end) (Some []) (tracts_of (o_off o) n).
+
+Fixpoint runs_eqb (a b : list (Z * Z)) : bool :=
+  match a, b with
+  | [], [] => true
+  | (n, v) :: a', (m, u) :: b' => (n =? m) && (v =? u) && runs_eqb a' b'
+  | _, _ => false
+  end.
+
+(* ------------------------------------------------------------------ one event *)
+Definition new_task (op kind gen term blob tract : Z) (bad : list Z) (cliver badts rpcid : Z) : task :=
+  {| t_op := op; t_kind := kind; t_gen := gen; t_term := term; t_blob := blob; t_tract := tract; t_phase := 0;
+     t_dv := 0; t_ok := []; t_bad := bad; t_new := []; t_wait := 0; t_cliver := cliver; t_badts := badts; t_rpc := rpcid |}.
+
+Definition step (st0 : state) (ev : list Z) : state * list Z :=
+  let st := set_out st0 [] in
+  match ev with
+  | 1 :: nts :: _ =>
+      (set_term_gen (set_nts st nts) (s_term st) (s_gen st)
+                    (zset (s_known st) (s_gen st) (map (fun i => Z.of_nat i + 1) (seq 0 (Z.to_nat nts)))), [])
+  | [2; blob; repl] => (set_blobs st (zset (s_blobs st) blob (repl, 0)), [])
+  | [3; op; cli; blob; off; len; wid] =>
+      (set_ops st (s_ops st ++ [{| o_id := op; o_kind := 3; o_cli := cli; o_blob := blob; o_off := off; o_len := len; o_wid := wid;
+                                   o_succ := []; o_acked := []; o_reads := [] |}]), [])
+  | [4; op; cli; blob; off; len] =>
+      (set_ops st (s_ops st ++ [{| o_id := op; o_kind := 4; o_cli := cli; o_blob := blob; o_off := off; o_len := len; o_wid := 0;
+                                   o_succ := []; o_acked := []; o_reads := [] |}]), [])
+  | 5 :: op :: _ :: blob :: tract :: nbad :: r =>
+      let '(bad, _) := take nbad r in
+      let st1 := start_task st (new_task op 5 (s_gen st) (s_term st) blob tract bad 0 0 0) in
+      let st2 := flush 8 st1 [] in
+      (st2, out_section st2)
+  | [6; op; _; blob; tract; ver; badts] =>
+      let st1 := start_task st (new_task op 6 (s_gen st) (s_term st) blob tract [] ver badts 0) in
+      let st2 := flush 8 st1 [] in
+      (st2, out_section st2)
+  | 7 :: mode :: r =>
+      match parse_rpc r with
+      | None => (st, [-1])
+      | Some (rp, r1) =>
+          match r1 with
+          | nh :: r2 =>
+              let '(place, r3) := take nh r2 in
+              let dur := match r3 with nd :: r4 => fst (take nd r4) | [] => [] end in
+              let hint := place ++ [-1] ++ dur in
+              match find_pent (s_pool st) rp 0 with
+              | None => (st, [-2])
+              | Some e =>
+                  let dump s := if is_ts_kind (k_kind rp) then dump_replica (s_reps s) (k_ts rp) (tkey (k_blob rp) (k_tract rp)) else [] in
+                  if mode =? 4 then
+                    let st1 := flush 8 (resume st e false hint) hint in
+                    (st1, [0] ++ dump st1 ++ out_section st1)
+                  else if k_kind rp =? K_FixVersion then
+                    let sid := - (s_nsynth st + 1) in
+                    let st1 := set_nsynth (set_pool st (pool_update (s_pool st) (set_pent e 1 [] (mode =? 2) (negb (mode =? 5))))) (s_nsynth st + 1) in
+                    let st2 := start_task st1 (new_task sid 6 (s_gen st) (s_term st) (k_blob rp) (k_tract rp) [] (k_ver rp) (aux_nth rp 0) (p_id e)) in
+                    let res := match find (fun x => p_id x =? p_id e) (s_pool st2) with
+                               | Some x => if p_st x =? 2 then 1 :: p_res x else [0]
+                               | None => [0]
+                               end in
+                    let st3 := flush 8 st2 hint in
+                    (st3, res ++ out_section st3)
+                  else
+                    let '(st1, res) := exec_rpc st e place in
+                    let st1' := if mode =? 3 then fst (exec_rpc st1 e place) else st1 in
+                    let st2 := set_pool st1' (pool_update (s_pool st1') (set_pent e 2 res (mode =? 2) (negb (mode =? 5)))) in
+                    let st3 := flush 8 st2 hint in
+                    (st3, [1] ++ res ++ dump st3 ++ out_section st3)
+              end
+          | [] => (st, [-1])
+          end
+      end
+  | 8 :: lose :: r =>
+      match parse_rpc r with
+      | None => (st, [-1])
+      | Some (rp, r1) =>
+          let hint := match r1 with
+                      | nh :: r2 => let '(place, r3) := take nh r2 in
+                                    place ++ [-1] ++ match r3 with nd :: r4 => fst (take nd r4) | [] => [] end
+                      | [] => []
+                      end in
+          match find_pent (s_pool st) rp 2 with
+          | None => (st, [-2])
+          | Some e => let st1 := flush 8 (resume st e (lose =? 0) hint) hint in (st1, out_section st1)
+          end
+      end
+  | [9; ts] =>
+      let victims := filter (fun e => (p_st e =? 0) && (k_ts (p_rpc e) =? ts)) (s_pool st) in
+      let st1 := fold_left (fun s e => flush 8 (resume s e false []) []) victims st in
+      (st1, out_section st1)
+  | [10] => (set_term_gen st (s_term st + 1) (s_gen st + 1) (s_known st), [])
+  | [11; ts] =>
+      let k := known_of st (s_gen st) in
+      (set_term_gen st (s_term st) (s_gen st) (zset (s_known st) (s_gen st) (if zmem ts k then k else k ++ [ts])), [])
+  | [12; blob; tract; dv; dt] =>
+      match zget (s_dtr st) (tkey blob tract) with
+      | None => (st, [-1])
+      | Some (ver, hosts) =>
+          if (dv =? 1) && (dt =? 0) then (st, [-1])
+          else let '(st1, c) := change_tract st (s_term st - dt) blob tract (ver + dv) hosts in (st1, [c])
+      end
+  | 13 :: r =>
+      match parse_rpc r with
+      | None => (st, [-1])
+      | Some (rp, _) =>
+          if issue_allowed st rp then (issue st rp 0, [777; V_OK]) else (st, [777; V_ISSUE])
+      end
+  | 14 :: op :: n :: cls :: runs =>
+      match find_op (s_ops st) op with
+      | None => (st, [777; V_NOOP])
+      | Some o =>
+          let st1 := set_ops st (del_op (s_ops st) op) in
+          if o_kind o =? 3 then
+            if (cls =? cl_NoError) && (n =? o_len o) then
+              if ack_allowed st o
+              then (set_acked st1 ((o_blob o, o_wid o, mkw (o_wid o) (o_off o) (o_len o)) :: s_acked st1), [777; V_OK])
+              else (st1, [777; V_ACK])
+            else (st1, [777; V_OK])
+          else
+            if (cls =? cl_NoError) || (cls =? cl_ErrEOF) then
+              match read_expected o n with
+              | None => (st1, [777; V_READ])
+              | Some exp => if runs_eqb (merge_runs exp) (merge_runs (pairs (tl runs))) then (st1, [777; V_OK]) else (st1, [777; V_READ])
+              end
+            else (st1, [777; V_OK])
+      end
+  | [15; op] =>
+      match zget (s_fin st) op with
+      | Some c => (set_fin st (zdel (s_fin st) op), [c])
+      | None => (st, [-3])
+      end
+  | 16 :: r =>
+      match parse_rpc r with
+      | None => (st, [-1])
+      | Some (rp, _) =>
+          match find (fun '(x, _) => rpc_eqb x rp) (s_done st) with
+          | Some (_, c) =>
+              (set_done st ((fix drop (l : list (rpc * Z)) := match l with
+                                                              | [] => []
+                                                              | (x, c') :: l' => if rpc_eqb x rp then l' else (x, c') :: drop l'
+                                                              end) (s_done st)), [c])
+          | None => (st, [-3])
+          end
+      end
+  | _ => (st, [-1])
+  end.
+
+Fixpoint run (st : state) (evs : list (list Z)) : list (list Z) :=
+  match evs with
+  | [] => []
+  | ev :: r => let '(st', o) := step st ev in o :: run st' r
+  end.
+
+Fixpoint run_state (st : state) (evs : list (list Z)) : state :=
+  match evs with
+  | [] => st
+  | ev :: r => run_state (fst (step st ev)) r
+  end.
+
+Definition run_case (ops : list (list Z)) : list (list Z) := run init_state ops.
